@@ -21,7 +21,7 @@ import threading
 
 import vlib
 
-SW = "CONSTANTS ControlsExisting = TRUE\n  RandomFresh = TRUE\n  OpenReturns = TRUE\n  OwnsOnlyCreated = TRUE\n"
+SW = "CONSTANTS ControlsExisting = TRUE\n  RandomFresh = TRUE\n  OpenReturns = TRUE\n  OwnsOnlyCreated = TRUE\n  OpenKeepsLimits = TRUE\n"
 
 
 class Lane:
@@ -43,10 +43,11 @@ def mc_cfg(ops, handles, withset=False, emit=False, check=True, more=False, **sw
     s = SW
     for k, v in sw.items():
         s = s.replace("%s = TRUE" % k, "%s = %s" % (k, v))
-    s += "  CtlSets = {{\"cpu\", \"memory\"}, {\"u\"}%s}\n" % (", {\"cpuacct\", \"memory\", \"pids\"}" if more else "")
+    s += "  CtlSets = {{\"cpu\", \"memory\"}, {\"u\"}, {\"cpuset\", \"memory\"}%s}\n" % (
+        ", {\"cpuacct\", \"memory\", \"pids\"}, {\"cpu\", \"cpuset\"}" if more else "")
     s += "  Names = {\"x\", \"y\"}\n  RNames = {\"r\"}\n  PidSet = {\"p1\", \"p2\"}\n"
-    s += "  MaxOps = %d\n  MaxDepth = 2\n  MaxHandles = %d\n  WithSet = %s\n  Emit = %s\nSPECIFICATION Spec\n" % (
-        ops, handles, "TRUE" if withset else "FALSE", "TRUE" if emit else "FALSE")
+    s += "  MaxOps = %d\n  MaxDepth = 2\n  MaxHandles = %d\n  WithSet = %s\n  Rich = %s\n  Emit = %s\nSPECIFICATION Spec\n" % (
+        ops, handles, "TRUE" if withset else "FALSE", "TRUE" if emit else "FALSE", "TRUE" if emit else "FALSE")
     if check:
         s += "INVARIANTS ImplRefines OneOwner Housed\nPROPERTY OnlyOwnersRemove\nVIEW View\n"
     return s + "CHECK_DEADLOCK FALSE\n"
@@ -59,7 +60,7 @@ RACE_CFG = "CONSTANTS G = 3\n  K = 2\n  Names = {\"x\", \"y\"}\n  AtomicMkdir = 
 def mc(ctx0, errs):
     try:
         ctx = Lane(ctx0, 100)
-        r = ctx.tlc("Cgroup_MC", cfg=mc_cfg(ctx0.pick(5, 6), 5), workers=4, timeout=900)
+        r = ctx.tlc("Cgroup_MC", cfg=mc_cfg(ctx0.pick(5, 6), 5, withset=True), workers=4, timeout=900)
         ctx0.tlc_ok("Cgroup_MC", r)
         st, tr = r.distinct, r.generated
         r = ctx.tlc("Cgroup_Race", cfg=RACE_CFG % "TRUE", workers=2, timeout=600)
@@ -68,8 +69,8 @@ def mc(ctx0, errs):
         ctx0.cov["mc_states"], ctx0.cov["mc_transitions"] = st, tr
         # sanity of the models (thorough): each defective design must be caught
         if not ctx0.quick():
-            for sw in ("ControlsExisting", "RandomFresh", "OpenReturns", "OwnsOnlyCreated"):
-                b = ctx.tlc("Cgroup_MC", cfg=mc_cfg(5, 4, **{sw: "FALSE"}), workers=2, timeout=600)
+            for sw in ("ControlsExisting", "RandomFresh", "OpenReturns", "OwnsOnlyCreated", "OpenKeepsLimits"):
+                b = ctx.tlc("Cgroup_MC", cfg=mc_cfg(5, 4, withset=True, **{sw: "FALSE"}), workers=2, timeout=600)
                 if b.invariant != "ImplRefines":
                     raise vlib.Inconclusive("model sanity: %s = FALSE should violate ImplRefines:\n%s" % (sw, b.tail(20)))
             b = ctx.tlc("Cgroup_Race", cfg=RACE_CFG % "FALSE", workers=2, timeout=600)
@@ -78,7 +79,8 @@ def mc(ctx0, errs):
         ctx0.cov["model_detects"] = ["stat-then-MkdirAll -> two owners of one directory (Cgroup_Race)",
                                      "v1 handle of an existing group acts on nothing -> AddProc moves nobody",
                                      "Random returns an existing group", "OpenExisting(v1) returns no handle",
-                                     "pre-existing directory of a later hierarchy recorded as created -> Destroy removes a foreign group"]
+                                     "pre-existing directory of a later hierarchy recorded as created -> Destroy removes a foreign group",
+                                     "another handle on an existing group re-initialises its cpuset -> a limit written is no longer in force"]
     except Exception as e:  # noqa
         errs.append(e)
 
@@ -216,6 +218,7 @@ def run1(ctx, nonce):
         "Random is only driven with forced names that exist in all hierarchies or in none; API calls only on handles whose group exists in every hierarchy",
         "one Destroy per handle (no retry after a failed one), no calls on a handle after Destroy (client errors)",
         "concurrent v1 creators: a loser that is told 'existing' may still have created the directory of a later controller; Destroy of the owner is then only required to remove what it created (race traces use the lenient Destroy rule)",
+        "limits written are the limits in force: after EVERY call all limit files of all groups of the case are read back and every limit a successful Set* established (memory.limit_in_bytes, cpu.cfs_quota_us/period_us, pids.max, cpuset.cpus) must be unchanged until its directory is removed; for cpuset also Cpus_allowed_list of the member processes. A Set* the kernel refuses (hierarchy constraints) is an admissible error and changes nothing",
         "limits: the value passed appears verbatim in the limit file (cfs quota/period in microseconds although the interface comment says ns); memory limits are page multiples",
         "memory.peak / pids.peak / memory.current parsing is exercised on fixture directories (these controllers are bound to v1 on this host); CPU tolerance: factor 2 and 50 ms against the burner's rusage",
         "kernel: rmdir of a group with processes or children fails with EBUSY; /proc/<pid>/cgroup is the truth about membership",
